@@ -80,7 +80,11 @@ def _exact_case(draw, tier):
     if not methods:
         spec["sde_type"] = "ito"
         methods = ["euler"]
-    if draw(st.sampled_from([False, False, True])):
+    if spec["sde_type"] == "stratonovich" and spec["noise_type"] != "diagonal":
+        methods.append("log_ode")           # the step with a prescribed Levy area, against its formula with explicit Jacobians
+    if spec["noise_type"] == "general" and draw(st.booleans()):
+        spec["sde_type"], methods = "stratonovich", ["log_ode"]
+    if "log_ode" not in methods and draw(st.sampled_from([False, False, True])):
         # a state-independent diffusion returned as one stored tensor: every variant (also derivative-free Milstein, whose
         # correction vanishes) must then equal y + f h + g dW exactly, and must leave that tensor alone
         spec["gstored"] = True
@@ -118,6 +122,12 @@ def enumerate_cases(tier):
                         else 1, "batch": 2, "hidden": 3, "seed": rnd.randrange(2 ** 31), "tdep": True, "fscale": 1.0,
                         "gscale": 0.7, "dtype": "float64", "gstored": True}
                 yield {"kind": "exact", "spec": spec, "method": method, "h": 0.1, "t0": 0.3, "seed": rnd.randrange(2 ** 31)}
+    for d, m in ((2, 2), (1, 2), (3, 2), (2, 3)):
+        idx += 1
+        rnd = random.Random(seed * 8009 + idx)
+        spec = {"sde_type": "stratonovich", "noise_type": "general", "d": d, "m": m, "batch": 2, "hidden": 3,
+                "seed": rnd.randrange(2 ** 31), "tdep": True, "fscale": 1.0, "gscale": 0.7, "dtype": "float64"}
+        yield {"kind": "exact", "spec": spec, "method": "log_ode", "h": 0.1, "t0": 0.3, "seed": rnd.randrange(2 ** 31)}
 
 
 def run_case(case):
@@ -276,7 +286,10 @@ def _run_exact(case):
     h = case["h"]
     dW = torch.randn(B, m, generator=gen, dtype=torch.float64) * math.sqrt(h)
     t0 = torch.tensor(case["t0"], dtype=torch.float64)
-    stub = brownian_tools.make_stub((B, m), torch.float64, "none", lambda ta, tb: (dW, None, None))
+    A = torch.randn(B, m, m, generator=gen, dtype=torch.float64) * h
+    A = 0.5 * (A - A.transpose(-1, -2))                    # a prescribed (antisymmetric) Levy area
+    stub = brownian_tools.make_stub((B, m), torch.float64, "davie" if case["method"] == "log_ode" else "none",
+                                    lambda ta, tb: (dW, None, A))
     mname = case["method"].split("+")[0]
     cls = methods.select(mname, spec["sde_type"])
     solver = cls(sde=base_sde.ForwardSDE(sde), bm=stub, dt=0.37, adaptive=False, rtol=1e-3, atol=1e-3, dt_min=1e-5,
@@ -294,6 +307,15 @@ def _run_exact(case):
             {"sde_type": spec["sde_type"], "noise_type": nt, "method": case["method"], "kind": "exact"}))
     G = torch.diag_embed(g) if nt == "diagonal" else g
     want = y0 + f * h + torch.einsum("bil,bl->bi", G, dW)
+    if case["method"] == "log_ode":
+        # midpoint log-ODE step: y' = y + f h/2 + g dW/2, then y + f' h + g' dW + sum_{k,l} (D g_l g_k)(t', y') A_kl
+        from .c16 import _jac_g
+        with torch.no_grad():
+            tp = t0 + 0.5 * h
+            yp = y0 + 0.5 * h * f + 0.5 * torch.einsum("bil,bl->bi", G, dW)
+            fp, gp = sde.f(tp, yp), sde.g(tp, yp)
+        Jp = _jac_g(sde, tp, yp)                                   # (B, d, m, d): d g_il / d y_j
+        want = y0 + fp * h + torch.einsum("bil,bl->bi", gp, dW) + torch.einsum("bilj,bjk,bkl->bi", Jp, gp, A)
     if case["method"] == "milstein" and not spec.get("gstored"):
         from .c16 import _jac_g
         J = _jac_g(sde, t0, y0)                                    # (B, d, m, d)
